@@ -440,10 +440,36 @@ impl NetSim {
         }
     }
 
+    /// one fair round: the timers of all correct replicas fire, then everything is delivered in order until quiescent
+    /// (Byzantine validators silent, blocks fetchable)
+    fn fair_round(&self, c: &mut Cluster, correct: &[usize], out: &mut Out) {
+        for i in correct {
+            self.step(c, *i, json!({"op":"tick"}), out);
+        }
+        let mut guard = 0;
+        while (!c.pool.is_empty() || !c.proposals.is_empty()) && guard < 5000 {
+            guard += 1;
+            if !c.proposals.is_empty() {
+                self.propose(c, out);
+                continue;
+            }
+            let p = c.pool.remove(0);
+            if c.byz.contains(&p.from) {
+                continue;
+            }
+            self.step(c, p.to, json!({"op":"msg","from":p.from,"sig_ok":p.sig_ok,"msg":p.msg}), out);
+            for i in correct {
+                c.sync_blocks(*i);
+            }
+            settle(&self.rt);
+        }
+    }
+
     fn run_case(&self, case_idx: usize, rng: &mut StdRng, steps: usize, out: &mut Out) {
         let _g = self.rt.enter();
         // committee with at most f weight Byzantine
-        let weights: Vec<u64> = match rng.gen_range(0..8) {
+        // progress runs: mostly the smallest committee with f = 1 (a fair round costs n² deliveries)
+        let weights: Vec<u64> = match if self.progress { rng.gen_range(0..5) } else { rng.gen_range(0..8) } {
             0 | 1 | 2 => vec![1; 6],
             3 => vec![1; 7],
             4 => vec![2, 1, 1, 1, 1, 1],
@@ -600,7 +626,7 @@ impl NetSim {
         // network is fair meanwhile, so blocks get certified; a replica stuck waiting for its disk is killed; then every
         // node process crashes (what was not durable is lost) and the disks recover. From here on the case is run and
         // monitored on the real replicas only (the model has no notion of a handler waiting for the disk).
-        let episode = case_idx % 3;
+        let episode = case_idx % 4;
         if episode == 1 {
             c.unmodelled = true;
             out.count("slow_storage_episode");
@@ -671,6 +697,39 @@ impl NetSim {
                 }
             }
         }
+        // ---- Byzantine view-jump episode (every fourth case with a Byzantine validator): the correct replicas are brought
+        // into one view by two fair rounds; their timers fire but only half of the timeout votes arrive (no quorum yet);
+        // a Byzantine validator F then sends every correct replica its timeout vote for that view and, right after, a
+        // timeout vote for the NEXT view. The partial certificates must survive F's jump: in the suffix the missing honest
+        // votes arrive and the view ends.
+        else if episode == 3 && !c.byz.is_empty() {
+            out.count("byz_view_jump_episode");
+            c.pool.clear();
+            c.proposals.clear();
+            for _ in 0..2 {
+                self.fair_round(&mut c, &correct, out);
+            }
+            for i in &correct {
+                self.step(&mut c, *i, json!({"op":"tick"}), out);
+            }
+            let packets: Vec<Packet> = c.pool.drain(..).collect();
+            for p in packets {
+                if c.byz.contains(&p.from) || (p.from + p.to) % 2 == 1 {
+                    continue;
+                }
+                self.step(&mut c, p.to, json!({"op":"msg","from":p.from,"sig_ok":p.sig_ok,"msg":p.msg}), out);
+            }
+            let f = c.byz[0];
+            for j in &correct {
+                let v = c.rigs[j].snapshot().view.0;
+                let hq = c.seen_qcs.iter().filter(|q| q.vote.view.v < v).last().cloned();
+                for view in [v, v + 1] {
+                    self.step(&mut c, *j, json!({"op":"msg","from":f,"sig_ok":true,"msg":{"timeout": ATVote { view: aview(view), hv: None, hq: hq.clone() }}}), out);
+                }
+            }
+            c.pool.clear();
+            c.proposals.clear();
+        }
         // ---- C06: fair synchronous suffix. Byzantine validators are silent, nothing is lost, timers fire when idle.
         let before = heads_before(&c);
         c.pool.clear();
@@ -728,11 +787,11 @@ impl Prop for NetSim {
         // agreement runs: few long cases (a view costs about n² deliveries; 2000 scheduler steps reach 10-20 views with
         // 6 validators); progress runs: many short adversarial prefixes (300 steps), each followed by an episode and the
         // fair suffix
-        let (steps, per_case) = if self.progress { (600, 150) } else { (2000, 2000) };
+        let (steps, per_case) = if self.progress { (400, 150) } else { (2000, 2000) };
         let cases = (opts.n / per_case).max(2);
         for k in 0..cases {
             // op budget (deterministic): large committees make long cases; do not start another one beyond 6 ops per unit of n
-            if k >= 2 && out.n_ops > opts.n * 6 {
+            if k >= 4 && out.n_ops > opts.n * 8 {
                 out.count("cases_skipped_by_op_budget");
                 continue;
             }
